@@ -137,6 +137,9 @@ func C12(tier common.Tier) int {
 			mix := e1.UseMix{TestOnly: true, Allow: 4}
 			var alpha []e1.UseBlock
 			for encl := e1.UEPlain; encl < e1.UseEncl(len(e1.UseEnclNames)); encl++ {
+				if !pairs && encl.HasBody() && encl != e1.UEPlain && encl != e1.UEPkgVar && encl != e1.UETestOnlyFunc {
+					continue // quick tier: three body enclosers
+				}
 				if encl.HasBody() {
 					for _, c := range core {
 						alpha = append(alpha, e1.UseBlock{Encl: encl, Stmts: []int{c, core[0]}})
@@ -160,7 +163,11 @@ func C12(tier common.Tier) int {
 							}
 							bb, _, bcrash, _ := e1.UseObserve(fam, base)
 							// reordering the declarations of the DECLARING package (and annotating only a subset of the items)
-							for _, skip := range []int{0, 3, 7, 24} {
+							skips := []int{0, 3, 7, 24}
+							if !pairs && len(h) > 1 {
+								skips = nil // quick tier: declaring-package reordering on single-declaration bases
+							}
+							for _, skip := range skips {
 								sb := *base
 								sb.Mix.Skip = skip
 								sbb := bb
